@@ -21,8 +21,8 @@ def job(info, cn):
        (precondition asserted, destination havocked), postconditions asserted"""
     c = info.classes[cn]
     rd = c['vtable']['read']; fn = rd['fn']
-    src = '#define VB_GHOST_AbstractFile int64_t g; int64_t p; int64_t fileSize; int rdstate; int64_t gcount; int64_t hdr_end;\n'
-    src += '#define VB_MARK_HDR_END(os) ((void)0)\n#include "blf.h"\nint vb_exc; int vb_caught;\n#include "af_hostile_stub.h"\n#include "vec_count.h"\n'
+    src = '#define VB_GHOST_AbstractFile int64_t g; int64_t p; int64_t fileSize; int rdstate; int64_t gcount; int64_t hdr_end; uint64_t asked; _Bool clamped;\n'
+    src += '#define VB_MARK_HDR_END(os) ((void)0)\n#include "blf.h"\nint vb_exc; int vb_caught;\n#include "af_hostile_stub.h"\n#include "vec_count.h"\nint64_t g_hdr_skip;   /* filler the header resynchronisation skipped before the object */\n'
     deps = [d for d in info.deps(cn) if d not in ('File', 'UncompressedFile', 'CompressedFile', 'ObjectQueue')]
     if 'ObjectHeaderBase' in deps and cn != 'ObjectHeaderBase':
         # ObjectHeaderBase::read is used through its contract (proved in C09 with a loop contract on the resync loop)
@@ -34,21 +34,34 @@ def job(info, cn):
     ctor_args = {'ObjectHeader': ', 0, 0', 'ObjectHeader2': ', 0, 0', 'VarObjectHeader': ', 0, 0'}.get(cn, '')
     src += 'void harness(void)\n{\n    struct %s y; struct AbstractFile is; int64_t g0;\n' % cn
     src += '    %s_ctor(&y%s);\n' % (cn, ctor_args)
-    src += '    __CPROVER_assume(is.g >= 0 && is.g <= is.fileSize && is.fileSize <= ((int64_t)1 << 40));\n    g0 = is.g; is.p = g0; is.hdr_end = 0; vb_exc = 0;\n    { size_t cap; vb_alloc_cap = cap; }   /* allocation may fail above an arbitrary cap */\n'
+    src += '    __CPROVER_assume(is.g >= 0 && is.g <= is.fileSize && is.fileSize <= ((int64_t)1 << 40));\n    g0 = is.g; is.p = g0; is.hdr_end = 0; is.asked = 0; is.clamped = 0; vb_exc = 0; g_hdr_skip = 0;\n    { size_t cap; vb_alloc_cap = cap; }   /* allocation may fail above an arbitrary cap */\n'
     src += '    %s(%s, &is);\n' % (fn, '&y' if not rd['self'] else '&y.' + rd['self'])
     blf_ok = '(is.rdstate & IOS_eofbit) != 0'
     if cn == 'FileStatistics': blf_ok = '((is.rdstate & IOS_eofbit) != 0 || y.signature != VBC_FileSignature)'
     src += '    __CPROVER_assert(vb_exc == 0 || vb_exc == VB_EXC_STD || (vb_exc == VB_EXC_BLF && %s), "C10/%s/read/R2-only-library-exception-at-eof-or-allocation-failure");\n' % (blf_ok, cn)
     src += '    __CPROVER_assert(is.g >= g0 && is.g <= is.fileSize, "C10/%s/read/R4-get-position-never-behind-object-start-nor-past-declared-end");\n' % cn
+    if info.is_object(cn) and cn not in ('ObjectHeaderBase',):
+        ohb = info.ohb(cn); O = (ohb + '.') if ohb else ''
+        calc = info.call(cn, 'calculateObjectSize', '&y')
+        pad = ' + y.%sobjectSize %% 4' % O if info.pads(cn) else ''
+        small = ' && '.join(['y.%s.size <= 0x0fffffffu' % l['path'] for l in info.leaves(cn) if l['kind'] == 'vec'] or ['1'])
+        # R3 is stated over the ghost total of bytes the decoder asked for or skipped (plain additions: constant for
+        # fixed-size classes), for the runs in which no read was cut short and no skip ran into the declared end
+        pad = ' + y.%sobjectSize %% 4' % O if info.pads(cn) else ''
+        concl = '(is.hdr_end || is.clamped || is.asked == (uint64_t)y.%sobjectSize%s)' % (O, pad)
+        src += '    __CPROVER_assert(!(vb_exc == 0 && is.rdstate == IOS_goodbit && y.%sobjectSize == %s && %s) || %s, "C03/%s/read/R3-decoding-consumes-exactly-objectSize-(plus-padding)-for-every-payload-length-when-the-decoded-sizes-are-consistent");\n' % (O, calc, small, concl, cn)
+        nextra = 1
+    else:
+        nextra = 0
     src += '    __CPROVER_assert(!is.hdr_end || vb_exc != 0 || is.rdstate != IOS_goodbit, "C08/%s/read/R6-an-object-cut-short-by-the-end-of-the-stream-never-ends-with-the-stream-good");\n' % cn
     src += '    __CPROVER_assert(0, "canary");\n'
-    canaries = ['harness.assertion.4']
+    canaries = ['harness.assertion.%d' % (4 + nextra)]
     vecs = [l for l in info.leaves(cn) if l['kind'] == 'vec' and not info.derived('not_serialised', l['owner'], l['name'])]
     if cn == 'CanFdExtFrameData': vecs = []     # its container is read by the enclosing CanFd* classes, which know the object size
     for i, v in enumerate(vecs):
         # reachability: a decode that completes with a non-empty container must be possible
         src += '    __CPROVER_assert(!(vb_exc == 0 && y.%s.size > 1), "canary-payload");\n' % v['path']
-        canaries.append('harness.assertion.%d' % (5 + i))
+        canaries.append('harness.assertion.%d' % (5 + nextra + i))
     src += '}\n'
     labels = {'re:AbstractFile::read precondition': 'C10/%s/read/R1-every-stream-read-has-a-writable-destination-of-the-requested-size' % cn,
               're:stream invariant': 'C10/%s/read/R4-get-position-between-object-start-and-declared-end-after-every-step' % cn,
